@@ -830,7 +830,28 @@ def check_interlace(env, ctx):
 def check_fields(env, ctx, dumps):
     r = ctx.rng
     st = {"commands": 0, "vdatas": 0, "selections_matching_different_counts": 0}
-    for f, t, (d, h) in dumps:
+    # a directed family: three Vdatas with partly shared field names, every 2-subset (and some 3-subsets) of the
+    # names as selection -> later Vdatas matching fewer, more, the same number of fields than earlier ones
+    layouts = [["fa", "fb", "fc"], ["fa", "fd", "fe"], ["fe", "fb"]]
+    r.shuffle(layouts)
+    dobjs = []
+    for k, names in enumerate(layouts):
+        names = list(names)
+        if r.randrange(2):
+            names.reverse()
+        fields = [(nm, flavoured(r.choice(NUM_TYPES), r), r.randrange(1, 3)) for nm in names]
+        vals = []
+        for _ in range(2):
+            for (_, nt, od) in fields:
+                vals += [rand_val(nt, r) for _ in range(od)]
+        dobjs.append({"k": "V", "name": "fsel%d" % k, "nrec": 2, "fields": fields, "vals": vals})
+    df = {"gattrs": [], "objs": dobjs}
+    dt = desc_text(df)
+    sels = [[a, b] for i, a in enumerate(FIELD_POOL) for b in FIELD_POOL[i + 1:]] + [r.sample(FIELD_POOL, 3) for _ in range(3)]
+    for x in sels:
+        r.shuffle(x)
+    work = [(df, dt, env.mk(dt), sels)] + [(f, t, fl, None) for f, t, fl in dumps]
+    for f, t, (d, h), fixed in work:
         vds = [o for o in f["objs"] if o["k"] == "V"]
         if not vds:
             continue
@@ -841,8 +862,7 @@ def check_fields(env, ctx, dumps):
             if tk and tk[0] == "V":
                 nf = int(tk[3])
                 rows[tk[1]] = list(map(int, tk[5 + 3 * nf:]))
-        for _ in range(3):
-            sel = r.sample(FIELD_POOL, r.randrange(1, 4))
+        for sel in (fixed if fixed is not None else [r.sample(FIELD_POOL, r.randrange(1, 4)) for _ in range(3)]):
             want, counts = [], set()
             for o in vds:
                 cols, types, pos = [], [], 0
